@@ -158,6 +158,43 @@ Example c36_over_limit_nonvacuous :
   recorded (run false w_cfg_in ov_sched) Inbound = 2 /\ live_count (run false w_cfg_in ov_sched) Inbound = 2.
 Proof. exact ov_facts. Qed.
 
+(** The connecting set (the only thing that keeps two simultaneous dials to one address apart:
+    the outbound record is written after the handshake). In EVERY reachable state: the set has no
+    duplicates, an address is in it exactly when some attempt holds it (tryAddConnecting executed
+    successfully, its deferred removeConnecting not yet executed), and no two attempts hold the
+    same address - mutual exclusion per address, over all interleavings. The proof needs the
+    shape regenerated from the source: removeConnecting is deferred only AFTER a successful
+    tryAddConnecting (c36_connecting_shape). *)
+Theorem c36_connecting_mutual_exclusion : forall (rc : bool) (cf : cfg) (sched : list ev),
+  let s := run rc cf sched in
+  NoDup (c_connecting (s_ctrl s)) /\
+  (forall a, In a (c_connecting (s_ctrl s)) <->
+             exists i t, nth_error (s_threads s) i = Some t /\ holds t = true /\ t_addr t = a) /\
+  (forall i j ti tj, nth_error (s_threads s) i = Some ti -> nth_error (s_threads s) j = Some tj ->
+                     holds ti = true -> holds tj = true -> t_addr ti = t_addr tj -> i = j).
+Proof.
+  intros rc cf sched s. destruct (kinv_reachable rc cf sched) as (A & B & C & _). auto.
+Qed.
+Print Assumptions c36_connecting_mutual_exclusion.
+
+(** A Connect refused by tryAddConnecting ("node exist in connecting list") changes nothing - not
+    the connecting set, not the records, not the established connections - and has nothing left
+    to run (no deferred removeConnecting): in every reachable state. *)
+Theorem c36_refused_connect_changes_nothing : forall (rc : bool) (cf : cfg) (sched : list ev) (i : nat) (t : thread),
+  let s := run rc cf sched in
+  nth_error (s_threads s) i = Some t -> t_out t = Pending ->
+  nth_error (prog_of (t_dir t)) (t_pc t) = Some (IOp OpTryConnecting) ->
+  amem (t_addr t) (c_connecting (s_ctrl s)) = true ->
+  exists t', nth_error (s_threads (step rc cf s (Run i))) i = Some t' /\ t_out t' = Failed EConnecting
+             /\ t_defer t' = [] /\ finished t' = true
+             /\ s_ctrl (step rc cf s (Run i)) = s_ctrl s /\ s_live (step rc cf s (Run i)) = s_live s.
+Proof. exact refused_connect_changes_nothing. Qed.
+Print Assumptions c36_refused_connect_changes_nothing.
+
+Theorem c36_connecting_shape : forall d, connecting_shape_ok (prog_of d) = true.
+Proof. exact prog_connecting_shape. Qed.
+Print Assumptions c36_connecting_shape.
+
 (** The theorems above are about the program and comparison operators found in the source now. *)
 Theorem c36_program_shape : forall d,
   save_positions_ok OpFull (prog_of d) = true /\ save_positions_ok OpHasBound (prog_of d) = true /\
